@@ -1,4 +1,5 @@
 import Urandom.Model.Seq
+import Urandom.Lemmas.Index
 import Urandom.Generated.GlueRandomDistr
 import Urandom.Generated.GlueDistr
 /-!
@@ -76,5 +77,35 @@ theorem range_usize_is_model (lo hi : Nat) : Random.range mockR uniformFromRange
 
 example : Random.range mockR uniformFromRange ⟨3, 3⟩ [1#64, 2#64] = none := by
   rw [range_usize_is_model]; rfl
+
+/-! ### `choose` on the model -/
+
+/-- an array of the model as a slice: `len()` and `get(i)` -/
+def sliceOf (a : Array Nat) : Slice Nat := ⟨BitVec.ofNat 64 a.size, fun i => a[i.toNat]?⟩
+
+/-- the model's `index` (`Random::index`, Props/C05T) on `usize` values -/
+def indexBV (L : BitVec 64) : DrawM (BitVec 64) := fun ws => (index L.toNat ws).map fun r => (BitVec.ofNat 64 r.1, r.2)
+
+/-- **`Random::choose` / `choose_mut` as translated are the model's `Seq.choose`** - the function C06's None-iff-empty, membership and 1/n
+theorems are about - for every slice of fewer than 2^64 elements and every word sequence -/
+theorem choose_is_model (a : Array Nat) (hs : a.size < 2 ^ 64) (ws : Words) :
+    Random.choose mockR indexBV (sliceOf a) ws = Seq.choose a ws ∧ Random.choose_mut mockR indexBV (sliceOf a) ws = Seq.choose a ws := by
+  have hL : (BitVec.ofNat 64 a.size).toNat = a.size := by simp [BitVec.toNat_ofNat, Nat.mod_eq_of_lt hs]
+  have key : (indexBV (sliceOf a).len >>= fun i => (pure ((sliceOf a).get i) : DrawM (Option Nat))) ws = Seq.choose a ws := by
+    simp only [bind, StateT.bind, indexBV, sliceOf, hL, Seq.choose, pure, StateT.pure]
+    cases h : index a.size ws with
+    | none => rfl
+    | some r =>
+      obtain ⟨k, ws'⟩ := r
+      simp only [Option.map, Option.bind]
+      by_cases h0 : a.size = 0
+      · have e1 : a[(BitVec.ofNat 64 k).toNat]? = none := Array.getElem?_eq_none (by omega)
+        have e2 : a[k]? = none := Array.getElem?_eq_none (by omega)
+        rw [e1, e2]
+      · have hk := index_lt a.size (by omega) hs ws ws' k h
+        have : (BitVec.ofNat 64 k).toNat = k := by simp [BitVec.toNat_ofNat]; omega
+        rw [this]
+  have hc := random_choose mockR indexBV (sliceOf a)
+  exact ⟨by rw [hc.1]; exact key, by rw [hc.2]; exact key⟩
 
 end Urandom.C04R
